@@ -38,10 +38,10 @@ def shard_teardown(ctx):
 def snap_all(blob, daq=None):
     from nptdms import TdmsFile
     out = {}
-    for mode in ('eager', 'lazy', 'eager-raw_ts'):
+    for mode in ('eager', 'lazy', 'eager-raw_ts', 'lazy-raw_ts'):
         try:
-            if mode == 'lazy':
-                tf = TdmsFile.open(io.BytesIO(blob))
+            if mode.startswith('lazy'):
+                tf = TdmsFile.open(io.BytesIO(blob), raw_timestamps=mode.endswith('raw_ts'))
             else:
                 tf = TdmsFile.read(io.BytesIO(blob), raw_timestamps=(mode == 'eager-raw_ts'))
             try:
@@ -97,7 +97,7 @@ def run_case(case, ctx):
         got = snap_all(encs[vname], daq)
         for mode in ref:
             ctx.count('pairs_compared')
-            if mode == 'lazy':
+            if mode.startswith('lazy'):
                 ctx.count('lazy_compared')
             a, b = ref[mode], got[mode]
             if isinstance(a, tuple) or isinstance(b, tuple):
